@@ -304,6 +304,10 @@ func c05Run(ctx *run.Ctx, id run.CaseID) {
 			}
 		}
 		if bad != "" {
+			class = ""
+			if jt == clip.Bevel && ((growing && !in) || (!growing && in)) && d > k*ad+tol && d <= 1.00026*ad+tol {
+				class = "bevel-near-straight-miter"
+			}
 			fail("region", fmt.Sprintf("%s at %s", bad, fmtPt(p)))
 			return
 		}
